@@ -18,7 +18,9 @@ RULE = ("temperature: all 16 ordered pairs of {K, Cel, degF, degR} x every admis
         "(B/Np <-> PR/AR, each dB-type unit <-> its linear counterpart, B <-> Np, the dB-type pairs in the table) in both "
         "directions x admissible prefixes x levels within +-200 dB / ratios within 1e+-20, every unit to itself with all "
         "prefix combinations, level addition/subtraction for every bel-type unit (same or mixed prefix), the documented "
-        "examples verbatim, plus a model-only stream of pairs mixing temperature/logarithmic units with arbitrary units "
+        "examples verbatim, histories in which 2-3 level operands are built once and reused across 3-7 additions, "
+        "subtractions, reads and conversions to the linear counterpart (every result expected from the operands as "
+        "constructed), plus a model-only stream of pairs mixing temperature/logarithmic units with arbitrary units "
         "(accept/refuse and value compared with the model, not judged). non-trivial = different units or prefixes, or an "
         "addition/subtraction; distinct = (u, v, value) text")
 ASSUMPTIONS = [
@@ -28,7 +30,8 @@ ASSUMPTIONS = [
     "the direct B<->Np constant 1.151277918 is only required to invert (it differs from ln(10)/2 in the 5th digit)",
     "levels are compared for power ratios > 0; subtraction is judged for a - b >= 0.5 dB (cancellation)",
     "the unit parser is C03's: an expression is used only if BaseUnits(expr) reads it as intended",
-    "operand mutation by a+b / a-b is C07's: fresh operands are built for every operation and only the result is read",
+    "the single-operation add/sub stream builds fresh operands; the history stream reuses operands and judges repeated "
+    "results and the operands' later readings/conversions (values only; uncertainty and aliasing are C07/C08's)",
     "pairs of logarithmic units that are not documented/table pairs (e.g. dBA<->dBuA, dBm<->dBSWL) are refused by the code; "
     "this is compared with the model and not judged",
 ]
@@ -265,7 +268,7 @@ def run_conv_cases(ctx, cat, cases):
         if "ok" not in r or (rs is not None and "ok" not in rs):
             ctx.disagreement(c["stream"], replay, "driver error %s %s" % (r, rs))
             continue
-        imp = C4.run_impl(c)
+        imp = C4.run_impl(c, cat)
         if "init" in imp:
             ctx.disagreement(c["stream"], replay, "Quantity() construction failed: %s" % imp["init"])
             continue
@@ -403,6 +406,140 @@ def level_stream(ctx, cat, count):
             ctx.violation("level:units:%s" % s, "result of %s %s %s is reported in %r" % (eu, "-" if sub else "+", ev, gunits), replay)
 
 
+# ------------------------------------------------------------------ histories: operands reused across operations
+def gen_level_history(cat, rng, units):
+    s = rng.choice(units)
+    n = rng.choice([2, 2, 3])
+    prefs = [rng.choice(["d", "d", None]) for _ in range(n)]
+    if rng.random() < 0.6:
+        prefs = [prefs[0]] * n                      # the normal case: identical units
+    base_db = rng.uniform(-60, 60)
+    vals_db = [base_db]
+    for _ in range(n - 1):
+        vals_db.append(vals_db[-1] - rng.uniform(0.5, 40))       # at least 0.5 dB apart (cancellation in a-b)
+    operands = [(p, v / (10 * pmag(cat, p))) for p, v in zip(prefs, vals_db)]      # operand 0 is the loudest
+    ops = []
+    for _ in range(rng.randint(3, 7)):
+        r = rng.random()
+        i, j = rng.sample(range(n), 2)
+        if r < 0.45:
+            ops.append(("add", i, j))
+        elif r < 0.65:
+            ops.append(("sub", min(i, j), max(i, j)))      # louder minus quieter (>= 1 dB apart)
+        elif r < 0.85:
+            ops.append(("linear", i))
+        else:
+            ops.append(("read", i))
+    return s, operands, ops
+
+
+def run_level_history(s, operands, ops, lin_expr):
+    import numpy as np
+    from scinumtools.units import Quantity
+    out = []
+    with warnings.catch_warnings(), np.errstate(all="ignore"):
+        warnings.simplefilter("ignore")
+        qs = [Quantity(v, (p or "") + s) for p, v in operands]
+        for o in ops:
+            try:
+                if o[0] == "add":
+                    r = qs[o[1]] + qs[o[2]]
+                    out.append((float(r.value()), r.units()))
+                elif o[0] == "sub":
+                    r = qs[o[1]] - qs[o[2]]
+                    out.append((float(r.value()), r.units()))
+                elif o[0] == "linear":
+                    out.append((float(qs[o[1]].value(lin_expr)), None))
+                else:
+                    out.append((float(qs[o[1]].value()), qs[o[1]].units()))
+            except Exception as e:
+                out.append(("err", repr(e)[:120]))
+    return out
+
+
+def level_history_stream(ctx, cat, count):
+    from harness.util import shrink_list
+    rng = ctx.rng
+    _, ut = U.units_mod()
+    doc = {}
+    for L, lin, k, ref in DOC_LEVELS:
+        doc.setdefault(L, (lin, k, ref))
+    units = [s for s in ut.LogarithmicUnitType.process if s in doc]
+    hist = [("B", [("d", 23.0), ("d", 20.0), ("d", 26.0)], [("add", 1, 0), ("add", 2, 0), ("read", 0), ("linear", 0)]),
+            ("BA", [("d", 87.0), ("d", 83.0)], [("sub", 0, 1), ("sub", 0, 1), ("read", 1)])]
+    for _ in range(count):
+        hist.append(gen_level_history(cat, rng, units))
+    reqs = []
+    for s, operands, ops in hist:
+        lin, k, ref = doc[s]
+        for o in ops:
+            if o[0] in ("add", "sub"):
+                (pa, a), (pb, b) = operands[o[1]], operands[o[2]]
+                reqs.append({"k": "level", "sub": o[0] == "sub", "u": cat.req_items([(pa, s, (1, 1))]),
+                             "v": cat.req_items([(pb, s, (1, 1))]), "x": U.f2b(a), "y": U.f2b(b)})
+            elif o[0] == "linear":
+                pa, a = operands[o[1]]
+                reqs.append({"k": "levelspec", "dir": "fromLevel", "kk": [F(k).numerator, F(k).denominator],
+                             "ref": [F(ref).numerator, F(ref).denominator], "p": U.f2b(pmag(cat, pa)), "lin": U.f2b(1.0),
+                             "x": U.mag_req(a)})
+            else:
+                reqs.append({"k": "levelspec", "dir": "toNeper", "kk": [1, 1], "ref": [1, 1], "p": U.f2b(1.0), "lin": U.f2b(1.0),
+                             "x": U.mag_req(1.0)})      # placeholder keeps requests aligned with ops
+    res = iter(ctx.driver.ask_many(reqs))
+
+    def first_failure(s, operands, ops, exps, lin_expr):
+        got = run_level_history(s, operands, ops, lin_expr)
+        for i, (o, g, e) in enumerate(zip(ops, got, exps)):
+            if g[0] == "err":
+                return i, "raises %s" % g[1]
+            want, wunits, atol = e
+            if not U.close(g[0], want, 1e-9, atol):
+                return i, "gives %r, expected %r" % (g[0], want)
+            if wunits is not None and g[1] != wunits:
+                return i, "reports units %r instead of %r" % (g[1], wunits)
+        return None
+
+    for s, operands, ops in hist:
+        lin, k, ref = doc[s]
+        lin_expr = lin
+        rs = [next(res) for _ in ops]
+        ctx.count("stream.level-history")
+        ctx.count("level-history.ops", len(ops))
+        ctx.case("level-history|%s|%r|%r" % (s, operands, ops), True,
+                 {"level_history": [s, operands, ops]} if len(ops) >= 4 else None)
+        if any("ok" not in r for r in rs):
+            ctx.disagreement("level-history", {"unit": s, "operands": operands, "ops": ops}, "driver error %s" % rs)
+            continue
+        exps = []
+        for o, r in zip(ops, rs):
+            if o[0] in ("add", "sub"):
+                pa = operands[o[1]][0]
+                exps.append((U.b2f(r["ok"]["spec"]), (pa or "") + s, 1e-11 / pmag(cat, pa)))
+            elif o[0] == "linear":
+                exps.append((U.mag_back(r["ok"]), None, 0.0))
+            else:
+                p, v = operands[o[1]]
+                exps.append((v, (p or "") + s, 0.0))
+        f = first_failure(s, operands, ops, exps, lin_expr)
+        if f is None:
+            continue
+        pairs = list(zip(ops, exps))[:f[0] + 1]
+
+        def fails(cand):
+            if cand[-1] is not pairs[-1]:
+                return False
+            ff = first_failure(s, operands, [c[0] for c in cand], [c[1] for c in cand], lin_expr)
+            return ff is not None and ff[0] == len(cand) - 1
+        small = shrink_list(pairs, fails, max_steps=40) if len(ctx.violations) < 3 else pairs
+        ops_small = [c[0] for c in small]
+        ff = first_failure(s, operands, ops_small, [c[1] for c in small], lin_expr) or f
+        names = ["%r %s%s" % (v, p or "", s) for p, v in operands]
+        ctx.violation("level-history:%s:%s" % (ops_small[-1][0], s),
+                      "operands %s; after %s the operation %s %s (expected values from the operands as constructed)" %
+                      (names, ops_small[:-1], ops_small[-1], ff[1]),
+                      {"stream": "level-history", "unit": s, "operands": operands, "ops": ops_small, "linear": lin_expr})
+
+
 def doc_examples(ctx):
     from scinumtools.units import Quantity, Unit
 
@@ -439,6 +576,7 @@ def correspond(ctx: Ctx, scale=1):
     cases = temp_cases(ctx, cat) + log_cases(ctx, cat) + mixed_cases(ctx, cat, (3000 if ctx.tier == "thorough" else 400) * scale)
     run_conv_cases(ctx, cat, cases)
     level_stream(ctx, cat, (2000 if ctx.tier == "thorough" else 300) * scale)
+    level_history_stream(ctx, cat, (1500 if ctx.tier == "thorough" else 200) * scale)
     doc_examples(ctx)
     ctx.extra["exhaustive_part"] = "all 16 temperature pairs; all documented log/linear pairs both directions; every unit to itself with all prefix combinations" + \
         ("; all admissible prefixes" if ctx.tier == "thorough" else "")
@@ -458,6 +596,11 @@ def replay(ctx: Ctx, payload):
     rp = payload.get("replay", payload)
     print(json.dumps(rp, indent=1, default=str)[:3000])
     from scinumtools.units import Quantity
+    if rp.get("stream") == "level-history":
+        got = run_level_history(rp["unit"], [tuple(o) for o in rp["operands"]], [tuple(o) for o in rp["ops"]], rp["linear"])
+        for o, g in zip(rp["ops"], got):
+            print(o, "impl:", g)
+        return 1
     if "a" in rp:
         try:
             qa, qb = Quantity(rp["a"], rp["u"]), Quantity(rp["b"], rp["v"])
